@@ -720,8 +720,37 @@ func BigPacket(r *core.Rand) rtcp.Packet {
 		return x
 	case 3: // CCFB with several maximal blocks
 		p := &rtcp.CCFeedbackReport{SenderSSRC: r.B32(), ReportTimestamp: r.B32()}
-		for i := r.Pick(2, 3, 7); i > 0; i-- {
-			mb := make([]rtcp.CCFeedbackMetricBlock, r.Pick(16384, 16383, 16382))
+		nb := r.Pick(2, 3, 4, 4, 5, 7) // 7 maximal blocks is the most that fits the 16-bit length field
+		exact := 0                     // when set: the metric blocks of all report blocks total exactly 2^16
+		if nb >= 4 && r.Chance(1, 2) {
+			exact = 65536
+		}
+		left := exact
+		for i := nb; i > 0; i-- {
+			cnt := r.Pick(16384, 16383, 16382)
+			if exact > 0 {
+				switch {
+				case i == 1:
+					cnt = left
+				case left-cnt > 16384*(i-1):
+					cnt = 16384
+				case left-cnt < 0:
+					cnt = left
+				case r.Chance(1, 3) && left > 16384*(i-1)/2:
+					cnt = 1 + r.Intn(16384)
+					if left-cnt > 16384*(i-1) {
+						cnt = left - 16384*(i-1)
+					}
+				}
+				if cnt > 16384 {
+					cnt = 16384
+				}
+				if cnt < 0 {
+					cnt = 0
+				}
+				left -= cnt
+			}
+			mb := make([]rtcp.CCFeedbackMetricBlock, cnt)
 			for j := 0; j < len(mb); j += 1 + r.Intn(97) {
 				mb[j] = rtcp.CCFeedbackMetricBlock{Received: true, ECN: rtcp.ECN(r.Intn(4)), ArrivalTimeOffset: r.U16() & 0x1FFF}
 			}
